@@ -901,6 +901,27 @@ func runOnce(c Case) (vkit.Info, error) {
 			}
 		}
 	}
+	// a newly elected leader whose read of the stored configuration FAILS must see an error, not defaults
+	if accepted > 0 {
+		def := config.NewConfig()
+		if err := def.Adjust(nil, false); err == nil {
+			o := config.NewPersistOptions(def)
+			snapO := func() snap {
+				return snap{mustJSON(o.GetScheduleConfig().Clone()), mustJSON(o.GetReplicationConfig()), mustJSON(o.GetPDServerConfig()),
+					mustJSON(o.GetLabelPropertyConfig()), mustJSON(o.GetClusterVersion()), mustJSON(o.GetReplicationModeConfig())}
+			}
+			b := snapO()
+			fk := faultkv.New(w.Base())
+			fk.FailLoads = true
+			if err := o.Reload(core.NewStorage(fk)); err == nil {
+				return info, vkit.Errf("PersistOptions.Reload reported success although the read of the stored configuration failed")
+			}
+			if d := diffSnap(b, snapO()); d != "" {
+				return info, vkit.Errf("PersistOptions.Reload failed (storage read error) but changed the options: %s", d)
+			}
+			classes["reload-read-fault"] = true
+		}
+	}
 	for k, on := range classes {
 		if !on {
 			continue
